@@ -137,6 +137,8 @@ def materialize(kind, cells, nan_cell, seed, target="binary", feature="f", class
     X = pd.DataFrame({feature: col})
     if companion == "id":  # an id-like qualitative column (each value once): dropped by every discretizer
         X["g"] = pd.Series([f"id{i}" for i in range(len(xs))], dtype=object)
+    if companion == "q2":  # a second, regular quantitative feature
+        X["g"] = pd.Series([float((3 * i) % 4) for i in range(len(xs))], dtype=float)
     if classes is not None:
         ys = [classes[v] for v in ys]
     if yscale is not None:  # continuous targets whose information sits in the fractional part
@@ -182,6 +184,8 @@ def carver_kwargs(case, vals):
         kw["values_orders"] = {"f": sorted(vals)}
     if case.get("companion") == "id":
         kw["qualitative_features"] = list(kw.get("qualitative_features", [])) + ["g"]
+    if case.get("companion") == "q2":
+        kw["quantitative_features"] = list(kw.get("quantitative_features", [])) + ["g"]
     kw.update(case.get("kw") or {})  # user-chosen sentinels (str_nan / str_default)
     return kw
 
